@@ -197,9 +197,9 @@ def run_case(case, res):
                         rep = ("<{node.data_id}>" if eq else "<{node.data}>") if rk == "str" else tok
                         kw = {"repr": rep, "join": join}
                         if sname == "list":
-                            kw["style"] = "list"
+                            kw["style"] = "".join(["li", "st"])  # an equal string object, not the interned literal
                         elif sname != "default":
-                            kw["style"] = sname if not sname.startswith("custom") else (tuple(style) if rk == "str" else list(style))
+                            kw["style"] = "".join([sname[:2], sname[2:]]) if not sname.startswith("custom") else (tuple(style) if rk == "str" else list(style))
                         eff_style = style if style is not None else list(CONNECTORS[t.DEFAULT_CONNECTOR_STYLE])
                         title_line = None
                         if start == -1:
